@@ -46,6 +46,24 @@ class _Expr(ast.NodeTransformer):
                 return ast.copy_location(ast.BoolOp(op=new_op, values=vals), node)
         return node
 
+    def visit_Call(self, node):
+        self.generic_visit(node)
+        # C16: getattr(x, 'name') -> x.name
+        if isinstance(node.func, ast.Name) and node.func.id == 'getattr' and len(node.args) == 2 and not node.keywords \
+                and isinstance(node.args[1], ast.Constant) and isinstance(node.args[1].value, str) and node.args[1].value.isidentifier():
+            return ast.copy_location(ast.Attribute(value=node.args[0], attr=node.args[1].value, ctx=ast.Load()), node)
+        # C13: x.startswith(('a', 'b')) -> x.startswith('a') or x.startswith('b')   (x a plain name / attribute chain)
+        f = node.func
+        if isinstance(f, ast.Attribute) and f.attr in ('startswith', 'endswith') and len(node.args) == 1 and not node.keywords \
+                and isinstance(node.args[0], ast.Tuple) and len(node.args[0].elts) >= 2 \
+                and all(isinstance(e, ast.Constant) and isinstance(e.value, str) for e in node.args[0].elts) \
+                and _chain_text(f.value) is not None:
+            import copy
+            vals = [ast.copy_location(ast.Call(func=ast.copy_location(ast.Attribute(value=copy.deepcopy(f.value), attr=f.attr, ctx=ast.Load()), f),
+                                               args=[e], keywords=[]), node) for e in node.args[0].elts]
+            return ast.copy_location(ast.BoolOp(op=ast.Or(), values=vals), node)
+        return node
+
     def visit_Compare(self, node):
         self.generic_visit(node)
         if len(node.ops) == 1 and isinstance(node.ops[0], (ast.In, ast.NotIn)) and isinstance(node.comparators[0], ast.List):
@@ -143,12 +161,132 @@ class _Expr(ast.NodeTransformer):
         return node
 
 
+def _chain_text(e):
+    parts = []
+    while isinstance(e, ast.Attribute):
+        parts.append(e.attr)
+        e = e.value
+    if isinstance(e, ast.Name):
+        parts.append(e.id)
+        return '.'.join(reversed(parts))
+    return None
+
+
+def _effect_free(v):
+    for x in ast.walk(v):
+        if isinstance(x, ast.Call) and not (isinstance(x.func, ast.Name) and x.func.id == 'len'):
+            return False
+        if isinstance(x, (ast.NamedExpr, ast.Await, ast.Yield, ast.YieldFrom, ast.Lambda, ast.ListComp, ast.SetComp, ast.DictComp,
+                          ast.GeneratorExp)):
+            return False
+    return True
+
+
+def _reads(v):
+    out = set()
+    for x in ast.walk(v):
+        t = _chain_text(x) if isinstance(x, (ast.Name, ast.Attribute)) else None
+        if t:
+            out.add(t)
+    return out
+
+
+def _splittable(s):
+    targets, values = s.targets[0].elts, s.value.elts
+    tt = [_chain_text(t) for t in targets]
+    if any(t is None for t in tt):
+        return False
+    changed = []
+    for j, v in enumerate(values):
+        if j > 0:
+            # values after the first: effect-free, and not reading anything an earlier (real) store changes
+            if not _effect_free(v):
+                return False
+            for r in _reads(v):
+                for t in changed:
+                    if r == t or r.startswith(t + '.') or t.startswith(r + '.'):
+                        return False
+        if _chain_text(v) != tt[j]:
+            changed.append(tt[j])
+    # an attribute target's base must not be rebound by an earlier target
+    for j, t in enumerate(tt):
+        for t0 in tt[:j]:
+            if t.startswith(t0 + '.'):
+                return False
+    return True
+
+
+def _leftmost_walrus(e):
+    """the assignment expression that is evaluated first (and unconditionally) in e, if there is one; with its parent."""
+    parent, field, idx = None, None, None
+    while e is not None:
+        if isinstance(e, ast.NamedExpr):
+            return e, parent, field, idx
+        if isinstance(e, ast.BoolOp):
+            parent, field, idx, e = e, 'values', 0, e.values[0]
+        elif isinstance(e, ast.Compare):
+            parent, field, idx, e = e, 'left', None, e.left
+        elif isinstance(e, ast.UnaryOp):
+            parent, field, idx, e = e, 'operand', None, e.operand
+        elif isinstance(e, ast.BinOp):
+            parent, field, idx, e = e, 'left', None, e.left
+        elif isinstance(e, (ast.Attribute, ast.Subscript)):
+            parent, field, idx, e = e, 'value', None, e.value
+        elif isinstance(e, ast.Call):
+            if isinstance(e.func, ast.Attribute) and _chain_text(e.func) is None:
+                parent, field, idx, e = e.func, 'value', None, e.func.value
+            elif (isinstance(e.func, ast.Name) or _chain_text(e.func) is not None) and e.args \
+                    and not isinstance(e.args[0], ast.Starred):
+                parent, field, idx, e = e, 'args', 0, e.args[0]
+            else:
+                return None
+        else:
+            return None
+    return None
+
+
+def _hoist_walrus(s, out):
+    """C14: `if (x := e) is not None and ...:` -> `x = e` + `if x is not None and ...:` (also return / expression /
+    assignment statements): the assignment expression is what the statement evaluates first."""
+    for fld in ('test', 'value'):
+        if fld == 'test' and not isinstance(s, ast.If):
+            continue
+        if fld == 'value' and not isinstance(s, (ast.Return, ast.Expr, ast.Assign, ast.AnnAssign)):
+            continue
+        root = getattr(s, fld, None)
+        while root is not None:
+            hit = _leftmost_walrus(root)
+            if hit is None:
+                break
+            w, parent, pf, idx = hit
+            if not isinstance(w.target, ast.Name):
+                break
+            out.append(ast.copy_location(ast.Assign(targets=[ast.Name(id=w.target.id, ctx=ast.Store())], value=w.value,
+                                                    lineno=s.lineno, col_offset=s.col_offset), s))
+            rep = ast.copy_location(ast.Name(id=w.target.id, ctx=ast.Load()), w)
+            if parent is None:
+                setattr(s, fld, rep)
+            elif idx is None:
+                setattr(parent, pf, rep)
+            else:
+                getattr(parent, pf)[idx] = rep
+            root = getattr(s, fld)
+
+
 def _canon_block(stmts):
     out = []
     for s in stmts:
         if isinstance(s, (ast.FunctionDef, ast.AsyncFunctionDef, ast.ClassDef)):
             out.append(s)
             continue
+        # C15: annotated assignments are plain assignments (a bare annotation of a local declares nothing at run time)
+        if isinstance(s, ast.AnnAssign) and isinstance(s.target, (ast.Name, ast.Attribute, ast.Subscript)):
+            if s.value is None:
+                if isinstance(s.target, ast.Name):
+                    continue
+            else:
+                s = ast.copy_location(ast.Assign(targets=[s.target], value=s.value, lineno=s.lineno, col_offset=s.col_offset), s)
+        _hoist_walrus(s, out)
         for sub in ('body', 'orelse', 'finalbody'):
             if isinstance(getattr(s, sub, None), list):
                 setattr(s, sub, _canon_block(getattr(s, sub)))
@@ -177,6 +315,16 @@ def _canon_block(stmts):
                 out.append(s)
                 out.extend(tail)
                 continue
+        # C12: `a, b = x, y` -> `a = x; b = y` when no later value can see an earlier target and at most the first value
+        # has an effect (all right-hand sides are evaluated before any store)
+        if isinstance(s, ast.Assign) and len(s.targets) == 1 and isinstance(s.targets[0], ast.Tuple) \
+                and isinstance(s.value, ast.Tuple) and len(s.value.elts) == len(s.targets[0].elts) \
+                and not any(isinstance(e, ast.Starred) for e in s.targets[0].elts + s.value.elts) and _splittable(s):
+            for t, v in zip(s.targets[0].elts, s.value.elts):
+                if _chain_text(t) == _chain_text(v):
+                    continue
+                out.append(ast.copy_location(ast.Assign(targets=[t], value=v, lineno=s.lineno, col_offset=s.col_offset), s))
+            continue
         if isinstance(s, ast.Assign) and len(s.targets) == 1 and isinstance(s.value, ast.BinOp) \
                 and isinstance(s.value.op, (ast.Add, ast.Sub)) and isinstance(s.value.right, ast.Constant) \
                 and isinstance(s.value.right.value, (int, float)) and not isinstance(s.value.right.value, bool) \
@@ -184,6 +332,8 @@ def _canon_block(stmts):
                 and ast.dump(s.value.left).replace('Load()', 'X').replace('Store()', 'X') == ast.dump(s.targets[0]).replace('Load()', 'X').replace('Store()', 'X'):
             s = ast.copy_location(ast.AugAssign(target=s.targets[0], op=s.value.op, value=s.value.right), s)
         out.append(s)
+    if stmts and not out:
+        out.append(ast.copy_location(ast.Pass(), stmts[0]))
     return out
 
 
